@@ -73,6 +73,8 @@ pub struct Script {
     pub free_strings_late: bool,
     /// call lol_html_take_last_error at random points where no error is pending
     pub poll_errors: bool,
+    /// some failing calls do not fetch their message; later failures must replace it
+    pub defer_errors: bool,
     /// skip lol_html_rewriter_end (free an unfinished rewriter)
     pub skip_end: bool,
 }
@@ -192,11 +194,12 @@ pub fn decode(tape: &[u16]) -> Script {
     let free_selectors_early = t.chance(1, 2);
     let free_strings_late = t.chance(1, 3);
     let poll_errors = t.chance(1, 3);
+    let defer_errors = t.chance(1, 4);
     let skip_end = t.chance(1, 8);
     let spec = sched_spec(&mut t);
     let input = input_in(&mut t, &InputOpts { max_frags: 14, ..Default::default() }, encoding_rs::UTF_8);
     let cuts = spec.resolve(input.len());
-    Script { sels, docs, encoding, strict, esi, prealloc, max_mem, graceful_mem, input, cuts, free_builder_early, free_selectors_early, free_strings_late, poll_errors, skip_end }
+    Script { sels, docs, encoding, strict, esi, prealloc, max_mem, graceful_mem, input, cuts, free_builder_early, free_selectors_early, free_strings_late, poll_errors, defer_errors, skip_end }
 }
 
 pub fn lossy(b: &[u8]) -> String {
@@ -211,7 +214,7 @@ impl Script {
             "input": lossy(&self.input), "cuts": self.cuts,
             "sels": self.sels.iter().map(|s| json!({"selector": lossy(&s.selector), "element": format!("{:?}", s.element), "comments": format!("{:?}", s.comments), "text": format!("{:?}", s.text)})).collect::<Vec<_>>(),
             "docs": self.docs.iter().map(|d| json!({"doctype": format!("{:?}", d.doctype), "comments": format!("{:?}", d.comments), "text": format!("{:?}", d.text), "end": format!("{:?}", d.end)})).collect::<Vec<_>>(),
-            "orders": {"free_builder_early": self.free_builder_early, "free_selectors_early": self.free_selectors_early, "free_strings_late": self.free_strings_late, "poll_errors": self.poll_errors, "skip_end": self.skip_end},
+            "orders": {"free_builder_early": self.free_builder_early, "free_selectors_early": self.free_selectors_early, "free_strings_late": self.free_strings_late, "poll_errors": self.poll_errors, "defer_errors": self.defer_errors, "skip_end": self.skip_end},
         })
     }
     pub fn distinct_entry_points(&self) -> usize {
